@@ -33,13 +33,14 @@ package rac
 //@   prop C13
 //@   requires wf(b)
 //@   ensures wf(b) && math(n) <= math(old(vlen(b))) && math(vlen(b)) == math(old(vlen(b))) - math(n)
-//@   ensures[zeroes] forall(k, 0, int(n), old(view(b, k)) == 0)
+//@   ensures[zeroes] forall(k, 0, math(n), old(view(b, k)) == 0)
 //@   ensures[rest] forall(k, 0, vlen(b), view(b, k) == old(view(b, k + int(n))))
 //@   modifies b.p, b.curr
-//@   loop 1 invariant wf(b) && b.p <= i && i <= len(b.prev) && forall(k, b.p, i, b.prev[k] == 0)
+//@   loop 1 invariant wf(b) && b.p <= i && i <= len(b.prev)
 //@   loop 1 invariant unchanged(b.p) && unchanged(b.curr) && unchanged(b.prev)
+//@   loop 1 invariant forall(k, 0, i - b.p, old(view(b, k)) == 0)
 //@   loop 1 decreases len(b.prev) - i
-//@   loop 2 invariant 0 <= i && i <= len(b.curr) && forall(k, 0, i, b.curr[k] == 0)
+//@   loop 2 invariant 0 <= i && i <= len(b.curr)
 //@   loop 2 invariant wf(b) && unchanged(b.curr) && unchanged(b.prev) && b.p == len(b.prev) && math(n) == math(len(b.prev)) - math(old(b.p))
-//@   loop 2 invariant forall(k, old(b.p), len(b.prev), b.prev[k] == 0)
+//@   loop 2 invariant forall(k, 0, (len(b.prev) - old(b.p)) + i, old(view(b, k)) == 0)
 //@   loop 2 decreases len(b.curr) - i
